@@ -41,17 +41,20 @@ def run(ctx):
     combos = [(m, "none") for m in ("none", "style", "force_dot_license", "fallback_dot_license", "skip_unrecognised")] + [("none", "single"), ("none", "multi"), ("style", "single"), ("style", "multi")]
     if tier == "thorough":
         combos += [(m, l) for m in ("force_dot_license", "fallback_dot_license", "skip_unrecognised") for l in ("single", "multi")]
+    exts = [".py", ".xyz", ".json", ".png", ".c (binary content)"]
     for mode, lines in combos:
-        conds.append(xh.Cond(f"annotate two paths, option={mode}, line handling={lines}", "ANN.py", "_ann", {"npaths": 2, "mode": mode, "lines": lines, "carve": carve}, timeout=tmo, twin="_ann_reach"))
+        for fe in range(5):
+            extra = {"outcomes": [0, 1], "fix_replace": True} if (tier == "quick" and lines != "none") else ({"fix_replace": True} if tier == "quick" else {})
+            conds.append(xh.Cond(f"annotate two paths (first is {exts[fe]}), option={mode}, line handling={lines}", "ANN.py", "_ann", dict({"npaths": 2, "mode": mode, "lines": lines, "first_ext": fe, "carve": carve}, **extra), timeout=tmo, twin="_ann_reach"))
     # a forced style that does not support the requested line handling although the files' own style does
     for forced, lines in (("html", "single"), ("python", "multi"), ("c", "single")):
-        conds.append(xh.Cond(f"annotate two paths, --style {forced} with line handling={lines} (must be refused before anything is touched)", "ANN.py", "_ann", {"npaths": 2, "mode": "style", "forced_style": forced, "lines": lines, "carve": carve}, timeout=tmo, twin="_ann_reach"))
+        conds.append(xh.Cond(f"annotate two paths, --style {forced} with line handling={lines} (must be refused before anything is touched)", "ANN.py", "_ann", {"npaths": 2, "mode": "style", "forced_style": forced, "lines": lines, "outcomes": [0, 1], "fix_replace": True, "carve": carve}, timeout=tmo, twin="_ann_reach"))
     ctx.functions_encoded = [
         "reuse.cli.annotate.annotate (command body: all_paths, verify_paths_comment_style, verify_paths_line_handling, per-path loop, touch of .license, exit status)",
         "reuse._annotate.add_header_to_file (style selection, fallback .license, read, skip_existing, try/except, write-back)",
     ]
     ctx.bounds = {
-        "invocation": "2 paths; each: type in {recognised .py, unrecognised .xyz, uncommentable .json, binary .png} x pre-existing .license sibling? x header construction outcome in {ok, CommentCreateError, MissingReuseInfoError}; --skip-existing, --no-replace; one of {no style option, --style, --force-dot-license, --fallback-dot-license, --skip-unrecognised}; line handling in {none, --single-line, --multi-line}",
+        "invocation": "2 paths; each: type in {recognised .py, unrecognised .xyz, uncommentable .json, binary .png, binary content under the recognised name .c} x pre-existing .license sibling? x header construction outcome in {ok, CommentCreateError, MissingReuseInfoError}; --skip-existing, --no-replace; one of {no style option, --style, --force-dot-license, --fallback-dot-license, --skip-unrecognised}; line handling in {none, --single-line, --multi-line}",
     }
     ctx.stubs = ["pathlib.Path inside reuse.cli.annotate / reuse._util and open inside reuse._annotate replaced by a dict-backed model", "is_binary by extension", "find_and_replace_header / add_new_header replaced by a fault point (raise the chosen error or return 'HEADER' + text)", "click's own option parsing (mutually exclusive options are rejected before the body runs)"]
     ctx.outside = ["more than two paths", "real OS errors (permissions, disk full)", "which concrete inputs make header construction fail (C07)"]
